@@ -1,6 +1,6 @@
 (* Crdt/LocalProofs.v — proofs about the local-edit model (Crdt/Local.v): what each editing call
    does to the observation ([observe] of Crdt/Interp.v), for any well-formed op set. *)
-From AM Require Import Base.Prelude Base.Order Crdt.Types Crdt.Interp Crdt.Local.
+From AM Require Import Base.Prelude Base.Order Crdt.Types Crdt.Interp Crdt.InterpProofs Crdt.Local.
 From Coq Require Import Sorting.Sorted.
 Local Open Scope N_scope.
 
@@ -13,3 +13,528 @@ Qed.
 
 Lemma step_error_no_op e t c x : step e t c = EErr x -> apply_call e t c = EOk (t, Some x).
 Proof. unfold apply_call. intros ->. reflexivity. Qed.
+
+(* ================= well-formedness ================= *)
+Definition id_lt_p (a b : op) : Prop := opid_cmp (op_id a) (op_id b) = Lt.
+Definition ssorted (l : list op) : Prop := StronglySorted id_lt_p l.
+Definition wf_tx (t : tx) : Prop := wf_tx_b t = true.
+
+Lemma ssorted_b_spec l : ssorted_b l = true <-> ssorted l.
+Proof.
+  unfold ssorted. induction l as [|x t IH]; cbn [ssorted_b].
+  - split; [constructor|reflexivity].
+  - rewrite andb_true_iff, IH, forallb_forall. split.
+    + intros [H1 H2]. constructor; [exact H2|]. rewrite Forall_forall. intros y Hy.
+      specialize (H1 y Hy). unfold id_lt, opid_ltb, ltb in H1. unfold id_lt_p.
+      destruct (opid_cmp (op_id x) (op_id y)); congruence.
+    + intros H. inversion H as [|? ? Ht Hx]; subst. split; [|exact Ht].
+      rewrite Forall_forall in Hx. intros y Hy. specialize (Hx y Hy). unfold id_lt_p in Hx.
+      unfold id_lt, opid_ltb, ltb. rewrite Hx. reflexivity.
+Qed.
+
+Lemma ssorted_nodup l : ssorted l -> NoDup (map op_id l).
+Proof.
+  induction 1 as [|x t _ IH Hx]; cbn; constructor; [|exact IH].
+  intros Hin. apply in_map_iff in Hin. destruct Hin as (y & Hy & Hin).
+  rewrite Forall_forall in Hx. specialize (Hx y Hin). unfold id_lt_p in Hx.
+  rewrite <- Hy in Hx. rewrite (cmp_refl opid_cmp opid_cmp_total) in Hx. discriminate.
+Qed.
+
+Lemma ssorted_ksorted l : ssorted l -> ksorted op_id opid_cmp l.
+Proof.
+  unfold ssorted, ksorted. induction 1 as [|x t _ IH Hx]; constructor; [exact IH|].
+  eapply Forall_impl; [|exact Hx]. intros y Hy. unfold kle, le. unfold id_lt_p in Hy. congruence.
+Qed.
+
+Lemma isort_sorted_id l : ssorted l -> isort op_cmp l = l.
+Proof.
+  intros S. change op_cmp with (kcmp op_id opid_cmp).
+  apply (ksorted_perm_unique op_id opid_cmp opid_cmp_total).
+  - eapply Permutation_NoDup; [|apply ssorted_nodup, S]. apply Permutation_map, kisort_perm.
+  - apply kisort_sorted, opid_cmp_total.
+  - apply ssorted_ksorted, S.
+  - apply Permutation_sym, kisort_perm.
+Qed.
+
+Lemma observe_sorted_eq l : ssorted l -> observe l = observe_sorted l.
+Proof. intros S. unfold observe. rewrite isort_sorted_id; auto. Qed.
+
+(* counters: a new id with a counter >= c is above every id of a set below c *)
+Lemma ssorted_snoc l n c :
+  ssorted l -> Forall (fun o => op_below c o = true) l -> c <= fst (op_id n) -> ssorted (l ++ [n]).
+Proof.
+  unfold ssorted. intros S B Hc. induction S as [|x t St IH Hx]; cbn.
+  - constructor; constructor.
+  - inversion B as [|? ? Bx Bt]; subst. constructor; [apply IH, Bt|].
+    apply Forall_app. split; [exact Hx|]. constructor; [|constructor].
+    unfold id_lt_p, opid_cmp. unfold op_below in Bx. rewrite !andb_true_iff in Bx.
+    destruct Bx as [[[B1 _] _] _]. apply N.ltb_lt in B1.
+    assert (E : (fst (op_id x) ?= fst (op_id n)) = Lt) by (apply N.compare_lt_iff; lia).
+    rewrite E. reflexivity.
+Qed.
+
+(* ================= appending one fresh op ================= *)
+Record fresh (ops : list op) (n : op) : Prop := {
+  fr_id : forall o, In o ops -> op_id o <> op_id n;
+  fr_named : forall o, In o ops -> ~ In (op_id n) (op_pred o);
+  fr_self : ~ In (op_id n) (op_pred n);
+  fr_key : forall o, In o ops -> op_key o <> KSeq (op_id n);
+  fr_obj : forall o, In o ops -> op_obj o <> op_id n }.
+
+Lemma fresh_incl ops ops' n : incl ops' ops -> fresh ops n -> fresh ops' n.
+Proof. intros I [A B C D E]. split; auto. Qed.
+
+Lemma memb_opid_In x l : memb opid_eqb x l = true <-> In x l.
+Proof. apply memb_In. intros; apply opid_eqb_spec. Qed.
+
+Lemma memb_opid_false x l : ~ In x l -> memb opid_eqb x l = false.
+Proof. intros H. destruct (memb opid_eqb x l) eqn:E; [|reflexivity]. apply memb_opid_In in E. tauto. Qed.
+
+(* the entry one op contributes, in the context of an op list *)
+Definition entry_of (ctx : list op) (o : op) : list vis_entry :=
+  if visible ctx o && negb (is_mark o) then
+    match vobs_of ctx o with Some v => [(slot o, (op_id o, v))] | None => [] end
+  else [].
+
+Lemma vis_ops_entry ops : vis_ops ops = flat_map (entry_of ops) ops.
+Proof. reflexivity. Qed.
+
+(* what a new op [n] does to an existing entry *)
+Definition updv (n : op) (iw : opid * vobs) : list (opid * vobs) :=
+  if memb opid_eqb (fst iw) (op_pred n) then
+    (if is_inc n then match snd iw with VC z => [(fst iw, VC (z + inc_value n)%Z)] | _ => [] end else [])
+  else [iw].
+Definition upd (n : op) (en : vis_entry) : list vis_entry := map (fun x => (fst en, x)) (updv n (snd en)).
+
+Lemma visible_snoc ctx n o : visible (ctx ++ [n]) o = visible ctx o && negb (hides o n).
+Proof.
+  unfold visible. rewrite existsb_app. cbn [existsb]. rewrite orb_false_r, negb_orb.
+  destruct (is_inc o), (is_del o), (existsb (hides o) ctx), (hides o n); reflexivity.
+Qed.
+
+Lemma counter_total_snoc ctx n o z :
+  counter_total (ctx ++ [n]) o z =
+  if names n o && is_inc n then (counter_total ctx o z + inc_value n)%Z else counter_total ctx o z.
+Proof. unfold counter_total. rewrite fold_left_app. cbn [fold_left]. reflexivity. Qed.
+
+Lemma entry_of_snoc ctx n o : entry_of (ctx ++ [n]) o = flat_map (upd n) (entry_of ctx o).
+Proof.
+  unfold entry_of. rewrite visible_snoc.
+  destruct (visible ctx o) eqn:V; cbn [andb]; [|reflexivity].
+  destruct (is_mark o) eqn:M; cbn [negb andb]; [rewrite andb_false_r; reflexivity|].
+  rewrite andb_true_r.
+  unfold hides, upd, updv, names. cbn [fst snd].
+  destruct (memb opid_eqb (op_id o) (op_pred n)) eqn:Nm; cbn [andb negb].
+  - (* named by n *)
+    unfold vobs_of, is_counter. destruct (op_action o) as [v| | | | |] eqn:A.
+    all: try destruct v.
+    all: cbn [flat_map app map fst snd]; rewrite ?Nm; rewrite ?counter_total_snoc; unfold names;
+      rewrite ?Nm; destruct (is_inc n); cbn; reflexivity.
+  - (* not named *)
+    assert (E : vobs_of (ctx ++ [n]) o = vobs_of ctx o).
+    { unfold vobs_of. destruct (op_action o) as [v| | | | |]; try reflexivity.
+      destruct v; try reflexivity. rewrite counter_total_snoc. unfold names. rewrite Nm. reflexivity. }
+    rewrite E. destruct (vobs_of ctx o); cbn [flat_map app map fst snd]; rewrite ?Nm; reflexivity.
+Qed.
+
+(* the entry of the new op itself *)
+Definition own (n : op) : list vis_entry :=
+  match op_action n with
+  | APut (SCounter z) => [(slot n, (op_id n, VC z))]
+  | APut v => [(slot n, (op_id n, VS v))]
+  | AMake t => [(slot n, (op_id n, VO t))]
+  | _ => []
+  end.
+
+Lemma existsb_false {A} (f : A -> bool) l : (forall x, In x l -> f x = false) -> existsb f l = false.
+Proof.
+  intros H. induction l as [|x t IH]; cbn; [reflexivity|].
+  rewrite H by (left; reflexivity). apply IH. intros y Hy. apply H. right. exact Hy.
+Qed.
+
+Lemma counter_total_unnamed ops o z :
+  (forall s, In s ops -> names s o = false) -> counter_total ops o z = z.
+Proof.
+  unfold counter_total. revert z. induction ops as [|s t IH]; intros z H; cbn; [reflexivity|].
+  rewrite H by (left; reflexivity). cbn. apply IH. intros s' Hs. apply H. right. exact Hs.
+Qed.
+
+Lemma entry_of_own ops n : fresh ops n -> entry_of (ops ++ [n]) n = own n.
+Proof.
+  intros F. unfold entry_of, own.
+  assert (Nn : forall s, In s (ops ++ [n]) -> names s n = false).
+  { intros s Hs. unfold names. apply memb_opid_false. apply in_app_or in Hs. destruct Hs as [Hs|[<-|[]]].
+    - apply (fr_named _ _ F), Hs.
+    - apply (fr_self _ _ F). }
+  assert (V : existsb (hides n) (ops ++ [n]) = false).
+  { apply existsb_false. intros s Hs. unfold hides. rewrite Nn by exact Hs. reflexivity. }
+  unfold visible. rewrite V. unfold vobs_of, is_inc, is_del, is_mark.
+  destruct (op_action n) as [v| | | | |]; cbn; try reflexivity.
+  destruct v; try reflexivity. rewrite counter_total_unnamed by exact Nn. reflexivity.
+Qed.
+
+Lemma flat_map_flat_map {A B C} (f : A -> list B) (g : B -> list C) l :
+  flat_map g (flat_map f l) = flat_map (fun x => flat_map g (f x)) l.
+Proof. induction l as [|x t IH]; cbn; [reflexivity|]. rewrite flat_map_app, IH. reflexivity. Qed.
+
+Lemma flat_map_ext' {A B} (f g : A -> list B) l : (forall x, f x = g x) -> flat_map f l = flat_map g l.
+Proof. intros H. induction l as [|x t IH]; cbn; [reflexivity|]. rewrite H, IH. reflexivity. Qed.
+
+Theorem vis_ops_snoc ops n :
+  fresh ops n -> vis_ops (ops ++ [n]) = flat_map (upd n) (vis_ops ops) ++ own n.
+Proof.
+  intros F. rewrite !vis_ops_entry. rewrite flat_map_app. cbn [flat_map]. rewrite app_nil_r.
+  rewrite entry_of_own by exact F. f_equal.
+  rewrite flat_map_flat_map. apply flat_map_ext'. intros o. apply entry_of_snoc.
+Qed.
+
+(* ================= registers after appending ================= *)
+Lemma key_eqb_true a b : key_eqb a b = true -> a = b.
+Proof.
+  destruct a as [x|x], b as [y|y]; cbn; try discriminate.
+  - intros H. apply (list_eqb_spec N.eqb) in H; [congruence|]. intros; apply N.eqb_eq.
+  - intros H. apply opid_eqb_spec in H. congruence.
+Qed.
+
+Lemma key_eqb_refl a : key_eqb a a = true.
+Proof.
+  destruct a as [x|x]; cbn.
+  - apply (list_eqb_spec N.eqb); [intros; apply N.eqb_eq|reflexivity].
+  - apply opid_eqb_spec. reflexivity.
+Qed.
+
+Lemma key_eqb_false a b : a <> b -> key_eqb a b = false.
+Proof. intros H. destruct (key_eqb a b) eqn:E; [|reflexivity]. apply key_eqb_true in E. contradiction. Qed.
+
+Lemma opid_eqb_refl a : opid_eqb a a = true.
+Proof. apply opid_eqb_spec. reflexivity. Qed.
+
+Lemma opid_eqb_false a b : a <> b -> opid_eqb a b = false.
+Proof. intros H. destruct (opid_eqb a b) eqn:E; [|reflexivity]. apply opid_eqb_spec in E. contradiction. Qed.
+
+Lemma register_app a b k : register (a ++ b) k = register a k ++ register b k.
+Proof. unfold register. apply flat_map_app. Qed.
+
+Lemma register_tagged s (l : regobs) k :
+  register (map (fun x => (s, x)) l) k = if key_eqb s k then l else [].
+Proof.
+  unfold register. induction l as [|x l IH]; cbn [map flat_map fst snd].
+  - destruct (key_eqb s k); reflexivity.
+  - rewrite IH. destruct (key_eqb s k); reflexivity.
+Qed.
+
+Lemma register_cons en t k :
+  register (en :: t) k = (if key_eqb (fst en) k then [snd en] else []) ++ register t k.
+Proof. reflexivity. Qed.
+
+Lemma register_upd n vis k : register (flat_map (upd n) vis) k = flat_map (updv n) (register vis k).
+Proof.
+  induction vis as [|en t IH]; [reflexivity|].
+  cbn [flat_map]. rewrite register_app, IH, register_cons, flat_map_app. f_equal.
+  unfold upd. rewrite register_tagged. destruct (key_eqb (fst en) k); cbn [flat_map].
+  - rewrite app_nil_r. reflexivity.
+  - reflexivity.
+Qed.
+
+Definition own_reg (n : op) : regobs := map snd (own n).
+
+Lemma register_own n k : register (own n) k = if key_eqb (slot n) k then own_reg n else [].
+Proof.
+  unfold register, own_reg, own. destruct (op_action n) as [v| | | | |]; cbn;
+    try (destruct (key_eqb (slot n) k); reflexivity).
+  destruct v; cbn; destruct (key_eqb (slot n) k); reflexivity.
+Qed.
+
+Lemma obj_ops_snoc ops n obj :
+  obj_ops (ops ++ [n]) obj = obj_ops ops obj ++ (if opid_eqb (op_obj n) obj then [n] else []).
+Proof. unfold obj_ops. rewrite filter_app. reflexivity. Qed.
+
+Lemma obj_ops_incl ops obj : incl (obj_ops ops obj) ops.
+Proof. intros x Hx. apply filter_In in Hx. tauto. Qed.
+
+Theorem reg_at_snoc ops n obj k :
+  fresh ops n ->
+  reg_at (ops ++ [n]) obj k =
+  if opid_eqb (op_obj n) obj
+  then flat_map (updv n) (reg_at ops obj k) ++ (if key_eqb (slot n) k then own_reg n else [])
+  else reg_at ops obj k.
+Proof.
+  intros F. unfold reg_at. rewrite obj_ops_snoc.
+  destruct (opid_eqb (op_obj n) obj); [|rewrite app_nil_r; reflexivity].
+  rewrite vis_ops_snoc by (eapply fresh_incl; [apply obj_ops_incl|exact F]).
+  rewrite register_app, register_upd, register_own. reflexivity.
+Qed.
+
+(* where the entries of a register come from *)
+Lemma vis_ops_in ops s i w :
+  In (s, (i, w)) (vis_ops ops) -> exists o, In o ops /\ op_id o = i /\ slot o = s.
+Proof.
+  rewrite vis_ops_entry. intros H. apply in_flat_map in H. destruct H as (o & Ho & H).
+  exists o. split; [exact Ho|]. unfold entry_of in H.
+  destruct (visible ops o && negb (is_mark o)); [|destruct H].
+  destruct (vobs_of ops o); [|destruct H]. destruct H as [H|[]]. inversion H. auto.
+Qed.
+
+Lemma register_in vis k iw : In iw (register vis k) -> In (k, iw) vis.
+Proof.
+  unfold register. intros H. apply in_flat_map in H. destruct H as (e & He & H).
+  destruct (key_eqb (fst e) k) eqn:E; [|destruct H]. destruct H as [<-|[]].
+  apply key_eqb_true in E. subst k. destruct e; exact He.
+Qed.
+
+Lemma in_register vis k iw : In (k, iw) vis -> In iw (register vis k).
+Proof.
+  unfold register. intros H. apply in_flat_map. exists (k, iw). split; [exact H|].
+  cbn. rewrite key_eqb_refl. left. reflexivity.
+Qed.
+
+Lemma reg_at_in ops obj k i w :
+  In (i, w) (reg_at ops obj k) ->
+  exists o, In o ops /\ op_obj o = obj /\ op_id o = i /\ slot o = k.
+Proof.
+  unfold reg_at. intros H. apply register_in, vis_ops_in in H.
+  destruct H as (o & Ho & H1 & H2). apply filter_In in Ho. destruct Ho as [Ho E].
+  apply opid_eqb_spec in E. exists o. auto.
+Qed.
+
+Lemma nodup_ids_inj ops o o' :
+  NoDup (map op_id ops) -> In o ops -> In o' ops -> op_id o = op_id o' -> o = o'.
+Proof.
+  induction ops as [|x t IH]; cbn; intros ND H1 H2 E; [destruct H1|].
+  inversion ND as [|? ? Hn NDt]; subst.
+  destruct H1 as [<-|H1], H2 as [<-|H2]; auto.
+  - exfalso. apply Hn. rewrite E. apply in_map, H2.
+  - exfalso. apply Hn. rewrite <- E. apply in_map, H1.
+Qed.
+
+Lemma reg_slot_unique ops obj obj' k k' i w w' :
+  NoDup (map op_id ops) ->
+  In (i, w) (reg_at ops obj k) -> In (i, w') (reg_at ops obj' k') -> obj = obj' /\ k = k'.
+Proof.
+  intros ND H1 H2. apply reg_at_in in H1, H2.
+  destruct H1 as (o & Ho & A1 & A2 & A3). destruct H2 as (o' & Ho' & B1 & B2 & B3).
+  assert (o = o') by (eapply nodup_ids_inj; eauto; congruence). subst o'. split; congruence.
+Qed.
+
+Lemma nodup_map_filter {A B} (g : A -> B) (p : A -> bool) l : NoDup (map g l) -> NoDup (map g (filter p l)).
+Proof.
+  induction l as [|x t IH]; cbn; intros ND; [constructor|].
+  inversion ND as [|? ? Hn NDt]; subst. destruct (p x); cbn; [|apply IH, NDt].
+  constructor; [|apply IH, NDt]. intros H. apply Hn. apply in_map_iff in H. destruct H as (y & Hy & H).
+  apply filter_In in H. apply in_map_iff. exists y. tauto.
+Qed.
+
+Lemma reg_ids_nodup ops obj k : NoDup (map op_id ops) -> NoDup (map fst (reg_at ops obj k)).
+Proof.
+  intros ND. unfold reg_at. rewrite register_ids_sub.
+  apply nodup_map_filter. destruct (vis_ops_ids (obj_ops ops obj)) as [f Hf]. rewrite Hf.
+  apply nodup_map_filter. unfold obj_ops. apply nodup_map_filter. exact ND.
+Qed.
+
+(* ================= reading an observation ================= *)
+(* the vocabulary of the statements: one object, one map register, the registers of a sequence *)
+Definition obs_obj (ob : obs) (id : opid) : option oobs := find (fun o => opid_eqb (oo_id o) id) ob.
+Definition obs_reg (ob : obs) (obj : opid) (k : list N) : regobs :=
+  match obs_obj ob obj with
+  | Some o => match oo_entries o with
+              | EM l => match find (fun p => nlist_eqb (fst p) k) l with Some p => snd p | None => [] end
+              | EL _ => []
+              end
+  | None => []
+  end.
+Definition obs_seq (ob : obs) (obj : opid) : list regobs :=
+  match obs_obj ob obj with
+  | Some o => match oo_entries o with EL l => l | EM _ => [] end
+  | None => []
+  end.
+
+Lemma find_map {A B} (g : A -> B) (p : B -> bool) l :
+  find p (map g l) = option_map g (find (fun x => p (g x)) l).
+Proof. induction l as [|x t IH]; cbn; [reflexivity|]. destruct (p (g x)); [reflexivity|exact IH]. Qed.
+
+Lemma find_ext {A} (p q : A -> bool) l : (forall x, p x = q x) -> find p l = find q l.
+Proof. intros H. induction l as [|x t IH]; cbn; [reflexivity|]. rewrite H, IH. reflexivity. Qed.
+
+Lemma oo_id_observe_obj fops id t : oo_id (observe_obj fops id t) = id.
+Proof. unfold observe_obj. destruct (is_seq_type t); reflexivity. Qed.
+
+Lemma obs_obj_sorted ops obj :
+  obs_obj (observe_sorted ops) obj =
+  option_map (fun t => observe_obj (obj_ops ops obj) obj t) (lookup_type ops obj).
+Proof.
+  unfold obs_obj, observe_sorted, lookup_type. rewrite find_map.
+  rewrite (find_ext _ (fun ot => opid_eqb (fst ot) obj)) by (intros ot; rewrite oo_id_observe_obj; reflexivity).
+  destruct (find (fun ot => opid_eqb (fst ot) obj) (objects ops)) as [ot|] eqn:E; [|reflexivity].
+  apply find_some in E. destruct E as [_ E]. apply opid_eqb_spec in E. cbn. rewrite E. reflexivity.
+Qed.
+
+Lemma nlist_eqb_true a b : nlist_eqb a b = true <-> a = b.
+Proof. apply (list_eqb_spec N.eqb). intros; apply N.eqb_eq. Qed.
+
+Lemma find_em (R : list N -> regobs) K k :
+  (R k <> [] -> In k K) ->
+  match find (fun p => nlist_eqb (fst p) k)
+             (flat_map (fun k' => match R k' with [] => [] | r => [(k', r)] end) K) with
+  | Some p => snd p | None => [] end = R k.
+Proof.
+  induction K as [|a K IH]; intros H; cbn [flat_map find].
+  - destruct (R k) eqn:E; [reflexivity|]. exfalso. apply H. discriminate.
+  - assert (H' : a <> k -> R k <> [] -> In k K).
+    { intros Na Hr. destruct (H Hr) as [->|Hin]; [contradiction|exact Hin]. }
+    destruct (R a) as [|x r] eqn:Ra; cbn [app].
+    + apply IH. intros Hr. apply H'; [|exact Hr]. intros ->. contradiction.
+    + cbn [find fst snd]. destruct (nlist_eqb a k) eqn:E.
+      * apply nlist_eqb_true in E. subst a. cbn. symmetry. exact Ra.
+      * apply IH. apply H'. intros ->. assert (nlist_eqb k k = true) by (apply nlist_eqb_true; reflexivity). congruence.
+Qed.
+
+Lemma dedup_sorted_in x l : In x l -> In x (dedup_sorted l).
+Proof.
+  induction l as [|a t IH]; [intros []|].
+  destruct t as [|b t'].
+  - cbn. tauto.
+  - intros H. change (dedup_sorted (a :: b :: t')) with
+      (if nlist_eqb a b then dedup_sorted (b :: t') else a :: dedup_sorted (b :: t')).
+    destruct (nlist_eqb a b) eqn:E.
+    + apply IH. destruct H as [<-|H]; [|exact H]. apply nlist_eqb_true in E. subst. left. reflexivity.
+    + destruct H as [<-|H]; [left; reflexivity|right; apply IH, H].
+Qed.
+
+Lemma slot_map o k : slot o = KMap k -> op_key o = KMap k.
+Proof. unfold slot. destruct (op_key o); intros H; [exact H|discriminate]. Qed.
+
+Lemma obs_reg_spec ops obj t k :
+  lookup_type ops obj = Some t -> is_seq_type t = false ->
+  obs_reg (observe_sorted ops) obj k = reg_at ops obj (KMap k).
+Proof.
+  intros L S. unfold obs_reg. rewrite obs_obj_sorted, L. cbn [option_map].
+  unfold observe_obj. rewrite S. cbn [oo_entries].
+  unfold reg_at. set (fops := obj_ops ops obj).
+  apply (find_em (fun k' => register (vis_ops fops) (KMap k'))).
+  intros Hr. apply dedup_sorted_in.
+  eapply Permutation_in; [apply isort_perm|].
+  destruct (register (vis_ops fops) (KMap k)) as [|[i w] r] eqn:E; [contradiction|].
+  assert (Hin : In (i, w) (register (vis_ops fops) (KMap k))) by (rewrite E; left; reflexivity).
+  apply register_in, vis_ops_in in Hin. destruct Hin as (o & Ho & _ & Hs).
+  unfold map_keys. apply in_flat_map. exists o. split; [exact Ho|]. rewrite (slot_map _ _ Hs). left. reflexivity.
+Qed.
+
+Lemma obs_seq_spec ops obj t :
+  lookup_type ops obj = Some t -> is_seq_type t = true ->
+  obs_seq (observe_sorted ops) obj = map snd (seq_elems ops obj).
+Proof.
+  intros L S. unfold obs_seq. rewrite obs_obj_sorted, L. cbn [option_map].
+  unfold observe_obj. rewrite S. cbn [oo_entries]. unfold seq_elems, reg_at.
+  induction (elem_order (obj_ops ops obj)) as [|e l IH]; cbn [flat_map map]; [reflexivity|].
+  rewrite map_app, IH. destruct (register (vis_ops (obj_ops ops obj)) (KSeq e)); reflexivity.
+Qed.
+
+(* ================= from well-formedness to freshness ================= *)
+Lemma wf_tx_parts t :
+  wf_tx t -> ssorted (tx_all t) /\ Forall (fun o => op_below (next_ctr t) o = true) (tx_all t) /\ 0 < tx_start t.
+Proof.
+  unfold wf_tx, wf_tx_b. rewrite !andb_true_iff. intros [[A B] C].
+  split; [apply ssorted_b_spec, A|]. split; [apply Forall_forall; rewrite forallb_forall in B; exact B|].
+  apply N.ltb_lt, C.
+Qed.
+
+Lemma op_below_parts c o :
+  op_below c o = true ->
+  fst (op_id o) < c /\ fst (op_obj o) < c /\ key_ctr (op_key o) < c /\ forall p, In p (op_pred o) -> fst p < c.
+Proof.
+  unfold op_below. rewrite !andb_true_iff. intros [[[A B] C] D].
+  apply N.ltb_lt in A, B, C. repeat split; auto.
+  intros p Hp. rewrite forallb_forall in D. apply N.ltb_lt, D, Hp.
+Qed.
+
+Lemma next_id_ctr t : fst (next_id t) = next_ctr t.
+Proof. reflexivity. Qed.
+
+Lemma fresh_of_wf t n :
+  wf_tx t -> op_id n = next_id t -> (forall p, In p (op_pred n) -> fst p < next_ctr t) ->
+  fresh (tx_all t) n.
+Proof.
+  intros W Hid Hp. destruct (wf_tx_parts t W) as (_ & B & _). rewrite Forall_forall in B.
+  split.
+  - intros o Ho E. destruct (op_below_parts _ _ (B o Ho)) as (A & _). rewrite E, Hid, next_id_ctr in A. lia.
+  - intros o Ho Hin. destruct (op_below_parts _ _ (B o Ho)) as (_ & _ & _ & D).
+    specialize (D _ Hin). rewrite Hid, next_id_ctr in D. lia.
+  - intros Hin. specialize (Hp _ Hin). rewrite Hid, next_id_ctr in Hp. lia.
+  - intros o Ho E. destruct (op_below_parts _ _ (B o Ho)) as (_ & _ & C & _).
+    rewrite E in C. cbn [key_ctr] in C. rewrite Hid, next_id_ctr in C. lia.
+  - intros o Ho E. destruct (op_below_parts _ _ (B o Ho)) as (_ & C & _).
+    rewrite E, Hid, next_id_ctr in C. lia.
+Qed.
+
+Lemma tx_all_push t n : tx_all (push t n) = tx_all t ++ [n].
+Proof. unfold tx_all, push. cbn. apply app_assoc. Qed.
+
+Lemma reg_ids_below t obj k i w :
+  wf_tx t -> In (i, w) (reg_at (tx_all t) obj k) -> fst i < next_ctr t.
+Proof.
+  intros W H. apply reg_at_in in H. destruct H as (o & Ho & _ & <- & _).
+  destruct (wf_tx_parts t W) as (_ & B & _). rewrite Forall_forall in B.
+  destruct (op_below_parts _ _ (B o Ho)) as (A & _). exact A.
+Qed.
+
+(* ================= the effect of an update op (put / make / delete / increment) ================= *)
+Section Update.
+  Variables (ops : list op) (n : op) (obj : opid) (K : key) (P : regobs).
+  Hypothesis S : ssorted ops.
+  Hypothesis F : fresh ops n.
+  Hypothesis Hins : op_insert n = false.
+  Hypothesis Hobj : op_obj n = obj.
+  Hypothesis Hkey : op_key n = K.
+  Hypothesis HP : incl P (reg_at ops obj K).
+  Hypothesis Hpred : op_pred n = map fst P.
+
+  Lemma upd_slot : slot n = K.
+  Proof. unfold slot. rewrite Hkey, Hins. destruct K; reflexivity. Qed.
+
+  Lemma upd_target : reg_at (ops ++ [n]) obj K = flat_map (updv n) (reg_at ops obj K) ++ own_reg n.
+  Proof. rewrite reg_at_snoc by exact F. rewrite Hobj, opid_eqb_refl, upd_slot, key_eqb_refl. reflexivity. Qed.
+
+  Lemma updv_id_outside l :
+    (forall i w, In (i, w) l -> ~ In i (map fst P)) -> flat_map (updv n) l = l.
+  Proof.
+    induction l as [|[i w] t IH]; intros H; [reflexivity|]. cbn [flat_map].
+    rewrite IH by (intros i' w' Hin; apply (H i' w'); right; exact Hin).
+    unfold updv. cbn [fst snd]. rewrite Hpred.
+    rewrite memb_opid_false by (apply (H i w); left; reflexivity). reflexivity.
+  Qed.
+
+  Lemma upd_frame_key K' : K' <> K -> reg_at (ops ++ [n]) obj K' = reg_at ops obj K'.
+  Proof.
+    intros NK. rewrite reg_at_snoc by exact F. rewrite Hobj, opid_eqb_refl, upd_slot.
+    rewrite key_eqb_false by congruence. rewrite app_nil_r.
+    apply updv_id_outside. intros i w Hin Hp.
+    apply in_map_iff in Hp. destruct Hp as ([i' w'] & E & Hp). cbn in E. subst i'.
+    apply HP in Hp.
+    destruct (reg_slot_unique ops obj obj K' K i w w' (ssorted_nodup _ S) Hin Hp) as [_ E]. contradiction.
+  Qed.
+
+  Lemma upd_frame_obj obj' K' : obj' <> obj -> reg_at (ops ++ [n]) obj' K' = reg_at ops obj' K'.
+  Proof.
+    intros NO. rewrite reg_at_snoc by exact F. rewrite Hobj. rewrite opid_eqb_false by congruence. reflexivity.
+  Qed.
+
+  Lemma upd_obj_ops obj' : obj' <> obj -> obj_ops (ops ++ [n]) obj' = obj_ops ops obj'.
+  Proof. intros NO. rewrite obj_ops_snoc, Hobj. rewrite opid_eqb_false by congruence. apply app_nil_r. Qed.
+
+  Lemma upd_elem_order obj' : elem_order (obj_ops (ops ++ [n]) obj') = elem_order (obj_ops ops obj').
+  Proof.
+    rewrite obj_ops_snoc. destruct (opid_eqb (op_obj n) obj'); [|rewrite app_nil_r; reflexivity].
+    unfold elem_order. rewrite filter_app. cbn [filter]. rewrite Hins. rewrite app_nil_r. reflexivity.
+  Qed.
+End Update.
+
+Lemma objects_snoc ops n :
+  objects (ops ++ [n]) = objects ops ++ match make_type n with Some t => [(op_id n, t)] | None => [] end.
+Proof.
+  unfold objects. rewrite flat_map_app. cbn [flat_map]. rewrite app_nil_r.
+  rewrite app_comm_cons. reflexivity.
+Qed.
+
+Lemma lookup_type_snoc_nomake ops n obj : make_type n = None -> lookup_type (ops ++ [n]) obj = lookup_type ops obj.
+Proof. intros H. unfold lookup_type. rewrite objects_snoc, H, app_nil_r. reflexivity. Qed.
+
